@@ -617,8 +617,11 @@ def handleTx (ds : DS) (j : Json) : IO DS := do
       -- C17: work done by a constructor is charged even when the result cannot be committed
       if J.strOf m "t" == "cvm.deploy" && J.has m "minGas" && msgs.length == 1 &&
           (code == 0 || ((J.strOf j "log").splitOn "failed to execute message").length > 1) then   -- the message ran (not refused by the ante handler)
-        ds := stat ds s!"sit.c17.deploy_work_then_selfdestruct.{if code == 0 then "ok" else "fail"}"
-        if J.intOf j "gasUsed" < J.intOf m "minGas" then
+        -- `Tx` refuses the deployment BEFORE the constructor runs when the address derived for the new contract already holds
+        -- an account (DuplicateAddress from `engine.CreateAccount`; the bankvm histories pre-fund such addresses): no work, no charge
+        let neverRan := code != 0 && ((J.strOf j "log").splitOn "DuplicateAddress").length > 1
+        ds := stat ds s!"sit.c17.deploy_work_then_selfdestruct.{if code == 0 then "ok" else if neverRan then "address_taken" else "fail"}"
+        if !neverRan && J.intOf j "gasUsed" < J.intOf m "minGas" then
           ds ← finding ds "monitor" "C17" "execution_is_charged_when_commit_fails" s!"a constructor that ran at least {J.intOf m "minGas"} instructions and then destroyed its contract was charged {J.intOf j "gasUsed"} (code {code}, {J.strOf j "log"})"
       if J.strOf m "t" == "cvm.call" then
         ds := stat ds s!"sit.c18.call.{J.strOf m "kind"}.{if code == 0 then "ok" else "fail"}"
